@@ -159,7 +159,9 @@ def c10(tier, seed):
     return dict(
         stages=[Stage('asyncbatch', mc=('AsyncBatchMC', 'AsyncBatch_%s.cfg' % t), emit=('AsyncBatchMC', 'AsyncBatch_%s_emit.cfg' % t),
                       driver='asyncbatch', trace=('AsyncBatchTrace', 'AsyncBatchTrace.cfg'), mc_workers=8,
-                      nontrivial=lambda tr: sum(1 for e in tr['ev'] if e['ev'] == 'Release') >= 2)],
+                      nontrivial=lambda tr: sum(1 for e in tr['ev'] if e['ev'] == 'Release') >= 2),
+                # liveness of the model under weak fairness: every schedule ends with the batch answered
+                Stage('asyncbatch_liveness', mc=('AsyncBatchMC', 'AsyncBatch_live.cfg'))],
         rule='every release order (interleaving) of batches of %s elements, each with 0..2 suspension points placed in the '
              'middleware (before/after the handler), the method or the error handler; element types: ok / failing / plain '
              'function / notifications; concurrent and sequential mode.  The schedules are TLC\'s: each terminal state of '
@@ -211,7 +213,7 @@ def apalache_retry_core():
 
 def c09(tier, seed):
     t = 'quick' if tier == 'quick' else 'thorough'
-    return dict(stages=[retry_stage('c09_' + t)],
+    return dict(stages=[retry_stage('c09_' + t), Stage('retry_liveness', mc=('Retry_c09_quick', 'Retry_c09_live.cfg'))],
                 rule='every outcome sequence the environment can produce (TLC explores the transport\'s choices attempt by '
                      'attempt; terminal states = complete fault sequences) for n in 0..%d x codes/exceptions sets (None, '
                      'empty, one, several) x 7 backoff configurations (periodic, exponential, Fibonacci; jitter, caps, default '
